@@ -353,8 +353,10 @@ def run(prop, tier, seed, spec, known, scratch, only, replay, t0):
         "wall_s": round(time.time() - t0, 2),
         "violations": len(violations),
     }
-    os.makedirs(os.path.join(VERIF, "evidence"), exist_ok=True)
-    json.dump(ev, open(os.path.join(VERIF, "evidence", prop + ".json"), "w"), indent=1)
+    # partial runs (--only, bound trials) must not replace the property's evidence
+    evdir = os.environ.get("VERIF_EVIDENCE_DIR") or (os.path.join(tempfile.gettempdir(), "verif-partial-evidence") if only else os.path.join(VERIF, "evidence"))
+    os.makedirs(evdir, exist_ok=True)
+    json.dump(ev, open(os.path.join(evdir, prop + ".json"), "w"), indent=1)
 
     # ---- verdict ----
     for h in results:
